@@ -313,7 +313,7 @@ STD_AXIOMS = ("functional_extensionality_dep", "proof_irrelevance", "classic", "
 # Generated model parts (translators T1-T3): every Properties file is re-checked against files regenerated
 # from the CURRENT source, whichever check runs
 # ----------------------------------------------------------------------------------------------
-GENERATED = {"Leaf/Gen_leaf.v": "T1", "Leaf/Gen_transpose.v": "T1t", "Leaf/Gen_access.v": "T1a", "Alg/StrassenGen.v": "T2",
+GENERATED = {"Leaf/Gen_leaf.v": "T1", "Leaf/Gen_transpose.v": "T1t", "Leaf/Gen_access.v": "T1a", "Leaf/Gen_observers.v": "T1o", "Alg/StrassenGen.v": "T2",
              "Sys/GenSites.v": "T3sites", "Sys/GenGlobals.v": "T3globals"}
 _regen_done = {}
 
@@ -357,6 +357,10 @@ def regen(kind):
             import translate_acc
             changed, refused = translate_acc.regenerate_accessors()
             problems = ["T1 (accessors of mzd.h, struct mode) refuses %s: %s" % (k, w) for k, w in (refused or {}).items()]
+        elif kind == "T1o":
+            import translate_obs
+            changed, refused = translate_obs.regenerate_observers()
+            problems = ["T1 (observers of mzd.c, struct mode) refuses %s: %s" % (k, w) for k, w in (refused or {}).items()]
         elif kind == "T2":
             pr = run([sys.executable, os.path.join(VERIF, "tools", "sched_extract.py"), "--repo", REPO,
                       "--out", os.path.join(COQ, "Alg", "StrassenGen.v")])
